@@ -15,6 +15,7 @@ CONSTANTS
   SlackKinds2 = {"ext_grid", "gen"}
   SlackPos2 = {0}
   PV2s = {FALSE}
+  TrafoKinds2 = {"t150"}
   MaxIslands = 2
 INVARIANT M_TypeOK
 INVARIANT M_ClassSound
